@@ -172,7 +172,10 @@ def run_path(start_kind, start_state, path, conc, rng, universe, deep=True):
     exp0 = expected_obs(start_state, conc)
     if observe_raw(d) != exp0:
         return "step 0 (%s start): object shows %r, model %r" % (start_kind, observe_raw(d), exp0)
+    retained = []     # sources of copy()/dump+parse: independent objects, must never change afterwards
     for i, e in enumerate(path):
+        if e["op"] in ("copy", "dumpparse"):
+            retained.append((i + 1, d, observe_raw(d)))
         a = e["args"]
         op = e["op"]
         if op == "set":
@@ -199,6 +202,9 @@ def run_path(start_kind, start_state, path, conc, rng, universe, deep=True):
         exp = expected_obs(e["to"], conc)
         if obs != exp:
             return "%s: mapping is %r, model says %r" % (where, obs, exp)
+        for (j, src, snap) in retained:
+            if src is not d and observe_raw(src) != snap:
+                return "%s: the object that was copied at step %d changed from %r to %r" % (where, j, snap, observe_raw(src))
         if deep or i == len(path) - 1:
             m = check_views(d, e["to"], conc, universe)
             if m:
